@@ -45,6 +45,31 @@ def api_level(rep, tier_, rng):
         checked += 1
         if (v in y) != (c <= v <= d):
             rep.violation("number `in` interval wrong", {"fn": "iv in", "x": v, "y": [c, d]})
+    # float / int operands at low interval precision: the operand must be converted to an enclosing interval,
+    # so the answer must be sound for the exact value of the float
+    p0 = iv.prec
+    try:
+        for _ in range(n // 2):
+            iv.prec = rng.choice([5, 10, 20, 30])
+            base = rng.randint(-8, 8)
+            f = base + rng.choice([1, -1]) * 2.0 ** -rng.randint(iv.prec - 2, 50)
+            y = iv.mpf([min(base, base + rng.randint(0, 3)), base + rng.randint(0, 3)])
+            c, d = Fraction(mpf_value(y._mpi_[0]) if y._mpi_[0][1] else 0), Fraction(mpf_value(y._mpi_[1]) if y._mpi_[1][1] else 0)
+            fx = Fraction(f)
+            for nm, got, truth in (("<", f < y, fx < c), ("<=", f <= y, fx <= c), (">", f > y, fx > d), (">=", f >= y, fx >= d)):
+                checked += 1
+                if got is True and not truth:
+                    rep.violation("float %s interval returned True although it fails for the exact value" % nm,
+                                  {"fn": "iv float " + nm, "x": repr(f), "y": [str(c), str(d)], "prec": iv.prec})
+            for nm, got, false_truth in (("<", f < y, fx >= d), ("<=", f <= y, fx > d), (">", f > y, fx <= c), (">=", f >= y, fx < c)):
+                if got is False and not false_truth:
+                    rep.violation("float %s interval returned False although it holds for some member" % nm,
+                                  {"fn": "iv float " + nm, "x": repr(f), "y": [str(c), str(d)], "prec": iv.prec})
+            checked += 1
+            if (f in y) and not (c <= fx <= d):
+                rep.violation("float `in` interval returned True for a value outside", {"fn": "iv float in", "x": repr(f), "y": [str(c), str(d)], "prec": iv.prec})
+    finally:
+        iv.prec = p0
     return {"api_level_checks": checked, "api_level": "iv.mpf < <= > >= == != and `in` on touching/nested/infinite/point intervals and numbers"}
 
 
